@@ -575,6 +575,11 @@ z3::check_result Executor::check(State &s, const z3::expr &extra, unsigned timeo
             if (r == z3::sat && outModel) *outModel = one.get_model();
             if (r != z3::unknown) { stratWins[tr.strat]++; break; }
         }
+        if (opt.dumpAll && !opt.dumpDir.empty()) {
+            static int na = 0; std::ofstream df(opt.dumpDir + "/q" + std::to_string(na++) + (r == z3::sat ? ".sat" : r == z3::unsat ? ".unsat" : ".unknown") + ".smt2");
+            z3::solver plain(*ZC); for (size_t i = 0; i < s.pc.size(); i++) if (!sliced || take[i]) plain.add(s.pc[i]); plain.add(extra);
+            df << plain.to_smt2();
+        }
         if (r == z3::unknown && !opt.dumpDir.empty()) {
             static int nd = 0; std::ofstream df(opt.dumpDir + "/unknown" + std::to_string(nd++) + ".smt2");
             z3::solver plain(*ZC); for (size_t i = 0; i < s.pc.size(); i++) if (!sliced || take[i]) plain.add(s.pc[i]); plain.add(extra);
